@@ -59,6 +59,23 @@ Theorem C12_build_gen_wf :
 Proof. exact build_gen_wf. Qed.
 Print Assumptions C12_build_gen_wf.
 
+(* Wordlist(file): read_qlc delivers the rows as strings ([raw]: the string with
+   Python's own split()/int() pre-applied); every column is converted with the
+   class wordlist.rc gives its header name ([conv]; the class table is regenerated
+   from /repo with the alias table; a failed int() leaves the string, '' becomes 0
+   under basictypes.integer).  The loaded object IS the object the dictionary
+   constructor builds from the converted rows - same ids - and it is well-formed:
+   every theorem of this file holds for the views of a loaded file with respect to
+   its typed rows *)
+Theorem C12_file_views :
+  forall (t : conf) (kinds : list ((string * list string) * kind)) (K : keys) (hdr : list string)
+         (d : list (Z * list raw)) (row col : string) (meta : list (string * cell)) (w : wl),
+    NoDup (map fst d) -> load_file t kinds K hdr d row col meta = Some w ->
+    wf K w /\ exists typed, convert_rows (read_kinds kinds) hdr d = Some typed /\
+                            build_gen t K hdr typed row col meta = Some w /\ map fst typed = map fst d.
+Proof. exact load_file_wf. Qed.
+Print Assumptions C12_file_views.
+
 (* attribute access: every spelling the alias table maps to the row (column)
    dimension yields rows (cols) - column aliases win over metadata *)
 Theorem C12_attr_dims :
@@ -89,6 +106,20 @@ Theorem C12_array_ids_only :
     exists r, In r (w_data w) /\ fst r = aget (x_array (w_index w)) i j.
 Proof. exact wf_array_ids_only. Qed.
 Print Assumptions C12_array_ids_only.
+
+(* the whole concept-by-language table, exactly: the concepts in the order of
+   their first occurrence in the rows; a concept has as many lines as its fullest
+   cell has rows ([height_of]); line k holds in the column of language l the id of
+   the k-th row (in row order) of the cell (concept, l), or 0 *)
+Theorem C12_array_exact :
+  forall (K : keys) (w : wl), wf K w ->
+    x_array (w_index w) =
+    flat_map (fun c => map (fun k => map (fun l => nth k (map fst (cellrows (w_data w) (w_ri w) (w_ci w) c l)) 0)
+                                         (x_cols (w_index w)))
+                           (seq 0 (height_of (w_data w) (w_ri w) (w_ci w) (x_cols (w_index w)) c)))
+             (first_occ (map (rkey (w_ri w)) (w_data w))).
+Proof. exact wf_array_exact. Qed.
+Print Assumptions C12_array_exact.
 
 (* ---- len_rows ----------------------------------------------------------------- *)
 (* len(wl) is the number of rows, and _array has exactly that many non-empty slots *)
@@ -133,6 +164,30 @@ Theorem C12_views_list_row :
                /\ NoDup rs /\ forall r, In r rs <-> In r (w_data w) /\ rkey (w_ri w) r = c.
 Proof. exact wf_list_row_flat. Qed.
 Print Assumptions C12_views_list_row.
+
+(* get_list(row=c, entry=e), two-dimensional (not flat): slot by slot the id / the
+   cell of the k-th row of the cell (c, l), 0 where the cell has no k-th row *)
+Theorem C12_views_list_row_2d :
+  forall (K : keys) (w : wl), wf K w ->
+  forall c e, In c (x_rows (w_index w)) ->
+    get_list_row (w_data w) (w_index w) c e =
+    Some (map (fun k => map (fun l => nth k (map (ent_row e) (cellrows (w_data w) (w_ri w) (w_ci w) c l)) (Atom 0))
+                            (x_cols (w_index w)))
+              (seq 0 (height_of (w_data w) (w_ri w) (w_ci w) (x_cols (w_index w)) c))).
+Proof. exact wf_list_row. Qed.
+Print Assumptions C12_views_list_row_2d.
+
+(* get_list(col=l, entry=e), not flat: the column of language l of the table, concept
+   by concept in the order of first occurrence *)
+Theorem C12_views_list_col_2d :
+  forall (K : keys) (w : wl), wf K w ->
+  forall l e, In l (x_cols (w_index w)) ->
+    get_list_col (w_data w) (w_index w) l e =
+    Some (flat_map (fun c => map (fun k => nth k (map (ent_row e) (cellrows (w_data w) (w_ri w) (w_ci w) c l)) (Atom 0))
+                                 (seq 0 (height_of (w_data w) (w_ri w) (w_ci w) (x_cols (w_index w)) c)))
+                   (first_occ (map (rkey (w_ri w)) (w_data w)))).
+Proof. exact wf_list_col. Qed.
+Print Assumptions C12_views_list_col_2d.
 
 (* get_list(col=l, flat=True, entry=e): exactly the rows with language l, each once *)
 Theorem C12_views_list_col :
@@ -250,6 +305,32 @@ Theorem C12_alias_after_add :
     forall s, sget (n_alias n') s = Some name -> resolve_item n' s = Some i /\ resolve_hdr n' s = Some i.
 Proof. exact add_name_reachable. Qed.
 Print Assumptions C12_alias_after_add.
+
+(* the same, concretely, for the shipped table: after add_entries(entry) with a
+   configured name (any spelling whose lower case is the name) that is not yet a
+   column, the new column is reached by the name and every configured alias, in
+   lower and in upper case *)
+Theorem C12_alias_after_add_configured :
+  forall (hdr : list string) (n : names) (name : string) (als : list string) (entry : string) (n' : names) (i : nat),
+    init_names wordlist_rc hdr = Some n -> In (name, als) wordlist_rc -> lower entry = name ->
+    add_name n entry = Some (n', i) ->
+    i = S (max_idx (n_hdr n)) /\
+    forall a s, In a (name :: als) -> s = lower a \/ s = upper a ->
+      resolve_item n' s = Some i /\ resolve_hdr n' s = Some i.
+Proof.
+  exact (fun hdr n name als entry n' i =>
+           add_name_configured wordlist_rc hdr n name als entry n' i wordlist_rc_reachable wordlist_rc_names_lower).
+Qed.
+Print Assumptions C12_alias_after_add_configured.
+
+(* and for a name the configuration does not know: reached by its lower- and upper-case spelling *)
+Theorem C12_alias_after_add_fresh :
+  forall (n : names) (entry : string) (n' : names) (i : nat),
+    smem (n_alias2 n) (lower entry) = false -> add_name n entry = Some (n', i) ->
+    i = S (max_idx (n_hdr n)) /\
+    forall s, s = lower entry \/ s = upper entry -> resolve_item n' s = Some i /\ resolve_hdr n' s = Some i.
+Proof. exact add_name_fresh. Qed.
+Print Assumptions C12_alias_after_add_fresh.
 
 (* ---- renumber_injective ------------------------------------------------------------------ *)
 (* values are compared through str() ([skey] is an order-preserving code of
@@ -401,3 +482,38 @@ Proof.
   eexists. eexists. split; [reflexivity|]. split; [vm_compute; reflexivity|].
   intros [H _ _ _ _]. vm_compute in H. discriminate.
 Qed.
+
+(* the table formula of C12_array_exact, evaluated on the example rows *)
+Example ex_array_formula :
+  let cols := [1001; 1002; 1003] in
+  flat_map (fun c => map (fun k => map (fun l => nth k (map fst (cellrows exD 1 0 c l)) 0) cols)
+                         (seq 0 (height_of exD 1 0 cols c)))
+           (first_occ (map (rkey 1) exD))
+  = [[2; 5; 40]; [0; 9; 0]; [7; 11; 0]].
+Proof. vm_compute. reflexivity. Qed.
+
+Example ex_alias_after_add : exists n n' i,
+  init_names wordlist_rc ["language"; "GLOSS"; "cogid"]%string = Some n /\
+  add_name n "Tokens" = Some (n', i) /\ i = 3%nat /\
+  resolve_hdr n' "IPATOKENS" = Some 3%nat /\ resolve_item n' "tokenized_counterpart" = Some 3%nat.
+Proof. eexists. eexists. eexists. vm_compute. repeat split. Qed.
+
+(* a written file: header doculect / concept / cogid / cogids / conceptid; the cells
+   'x1' (class int) and 'a' (basictypes.integer) stay strings, '' becomes 0 *)
+Example ex_file : exists w,
+  load_file wordlist_rc wordlist_rc_kinds exK ["doculect"; "concept"; "cogid"; "cogids"; "conceptid"]%string
+    [ (3, [ {| r_str := 1001; r_int := None; r_toks := [(1001, None)] |};
+            {| r_str := 1010; r_int := None; r_toks := [(1010, None)] |};
+            {| r_str := 1000; r_int := None; r_toks := [] |};
+            {| r_str := 1020; r_int := None; r_toks := [(1021, Some 1); (1022, Some 2)] |};
+            {| r_str := 1030; r_int := None; r_toks := [(1030, None)] |} ]);
+      (8, [ {| r_str := 1003; r_int := None; r_toks := [(1003, None)] |};
+            {| r_str := 1010; r_int := None; r_toks := [(1010, None)] |};
+            {| r_str := 1040; r_int := None; r_toks := [(1040, None)] |};
+            {| r_str := 1000; r_int := None; r_toks := [] |};
+            {| r_str := 1050; r_int := Some 7; r_toks := [(1050, Some 7)] |} ]) ]
+    "concept" "doculect" [] = Some w /\
+  w_data w = [ (3, [Atom 1001; Atom 1010; Atom 0; Multi [1; 2]; Atom 1030]);
+               (8, [Atom 1003; Atom 1010; Atom 1040; Multi []; Atom 7]) ] /\
+  x_array (w_index w) = [[3; 8]].
+Proof. eexists. vm_compute. repeat split. Qed.
